@@ -376,7 +376,7 @@ class Monitor(object):
             ctx["decided_now"].append(i)
             if cmd == "k":
                 self.stats["kills"] += 1
-                self.judge_kill(i, c)
+                self.judge_kill(i, c, len(ln))
             else:
                 self.stats["accepts"] += 1
                 self.judge_accept(i, c, ln)
@@ -388,12 +388,12 @@ class Monitor(object):
         elif cmd == "U":
             ctx["saw_U"].append((i, c["tail"]))
 
-    def judge_kill(self, i, c):
+    def judge_kill(self, i, c, line_len=0):
         ctx = self.step_ctx
         ek = ctx["expect_kill"]
         if ek is None or ek[0] is not i:
             self.v("C05", "kill-unasked", "client %d rejected (%r) although no awaited service refused it in this step" % (i.id, c["tail"]))
-        elif c["tail"] != ":" + ek[1] and not same_or_cut(c["tail"][1:], ek[1], len(c["tail"]) + 20):
+        elif c["tail"] != ":" + ek[1] and not same_or_cut(c["tail"][1:], ek[1], line_len):
             self.v("C05", "kill-text", "client %d rejected with %r, the service said %r" % (i.id, c["tail"][1:], ek[1]))
 
     def judge_accept(self, i, c, ln):
